@@ -104,9 +104,13 @@ if __name__ == "__main__":
         if args_length == 2:
             output = compile_script(sys.argv[1])
             print_output(output)
-        if args_length == 3 and sys.argv[1] == "-s":
+        elif args_length == 3 and sys.argv[1] == "-s":
             output = compile_string(sys.argv[2])
             print_output(output)
+        else:
+            raise MissingProgramArgumentError(
+                "expected '<program path>' or '-s <base64 program>' as arguments"
+            )
 
     except Exception as ex:
         output = {
